@@ -7,6 +7,7 @@ from conda_content_trust import common as C
 
 from vlib import gen_json as G, gen_pyvalues as GP, keys, ref_grammar as g
 from vlib import fuzz as FZ
+from vlib import cfgunit as _cfgunit
 from vlib.runner import Unit, Violation
 
 PROPERTY = "C15"
@@ -300,4 +301,6 @@ UNITS = [
          doc="atheris (libFuzzer) coverage-guided campaign with the oracle in-target"),
     Unit("boundary", check_boundary, enumerate=enum_boundary, exhaustive=True, shards_quick=8,
          doc="every position x every special character x {insert, substitute, substitute+delete, replace a byte pair} on a valid key/signature/fingerprint"),
+    _cfgunit.unit_under_config(PROPERTY, 'strings', exclude=()),
+    _cfgunit.unit_under_config(PROPERTY, 'entries', exclude=()),
 ]
